@@ -14,6 +14,7 @@ EXPLICIT = {
     "panicking::panic": "panic", "panicking::panic_fmt": "panic", "panicking::panic_explicit": "panic",
     "panicking::assert_failed": "panic", "panicking::unreachable_display": "panic", "panicking::panic_display": "panic",
     "panicking::panic_nounwind": "panic", "rt::panic_fmt": "panic", "panicking::begin_panic": "panic",
+    "ArrayString::push": "capacity", "ArrayString::push_str": "capacity", "ArrayString::from": "capacity",
     "ArrayVec::push": "capacity", "ArrayVec::insert": "capacity", "ArrayVec::extend_from_slice": "capacity",
     "Index>::index": "index", "IndexMut>::index_mut": "index", "Index<I>>::index": "index", "IndexMut<I>>::index_mut": "index",
     "slice::swap": "index", "ArrayVec::swap": "index", "copy_from_slice": "index", "split_at": "index", "Vec::remove": "index",
